@@ -226,6 +226,7 @@ theorem getArrays_delivers_forge (e : Element) (t : Bool) (out : Dict Chan Eleme
     simp only [hf, Except.map, Except.ok.injEq] at this
     exact this.symm
 
+/-- helper for the next theorem: one failing element makes `mapM` fail -/
 theorem mapM_error_of_mem {α β : Type} (f : α → Except Err β) (l : List α) (x : α) (hx : x ∈ l) (er : Err)
     (h : f x = .error er) : ∃ er', l.mapM f = .error er' := by
   induction l with
@@ -260,7 +261,7 @@ example : (exampleEl.getArrays true).toOption.map (fun out => out.map (fun p => 
     for ramps, zeros and raw arrays). -/
 theorem eval_length (b : BP) (f : Forged) (_h : forgeBP b = .ok f) (blk : Blk) (_hm : blk ∈ f.blocks)
     (xs : List ℚ) (he : blk.eval? = some xs) : xs.length = blk.len :=
-  Blk.eval?_length blk xs he
+  Blk.evalLength blk xs he
 
 /-- A waituntil segment's block evaluates to zeros only (as many as the block is long). -/
 theorem wait_block_evaluates_to_zeros (b : BP) (f : Forged) (h : forgeBP b = .ok f) (i : Nat)
@@ -269,7 +270,7 @@ theorem wait_block_evaluates_to_zeros (b : BP) (f : Forged) (h : forgeBP b = .ok
   obtain ⟨sr, durs, _, _, hd, hb, hblk⟩ := block_is_own_pulse b f h i hi
   refine ⟨hb, ?_⟩
   rw [hblk, forgeFn_wait _ hw]
-  exact Blk.eval?_zeros _ _ _ _ rfl
+  exact Blk.evalZeros _ _ _ _ rfl
 
 /-- A ramp segment's block (shape `ramp`, two numeric arguments) evaluates to the generated
     `PulseAtoms.ramp` kernel on its own `n_i` points `k = 0..n_i-1`, at the blueprint's sample rate:
@@ -286,7 +287,7 @@ theorem ramp_block_evaluates_to_ramp (b : BP) (f : Forged) (h : forgeBP b = .ok 
   subst this
   refine ⟨hb, ?_⟩
   rw [hblk, forgeFn_nonwait _ hw, ha, hfs]
-  exact Blk.eval?_ramp _ _ _ _ _ hs
+  exact Blk.evalRamp _ _ _ _ _ hs
 
 /-- the generated ramp kernel in closed form: sample `k` of `n` is `a + (c - a)·k/n`; in particular
     the first sample is the start value -/
@@ -324,7 +325,7 @@ theorem flat_spec (b : BP) (f : Forged) (h : forgeBP b = .ok f) (w : List ℚ) (
     refine ⟨by rw [sumN_map_length_flatten, hlens, hsum], xss, rfl, rfl, by rw [hl, hbl], ?_⟩
     intro i hi
     have hb : i < f.blocks.length := by omega
-    refine ⟨hb, hget i hb hi, Blk.eval?_length _ _ (hget i hb hi), ?_⟩
+    refine ⟨hb, hget i hb hi, Blk.evalLength _ _ (hget i hb hi), ?_⟩
     intro j hj
     have hs : i < (starts (f.blocks.map Blk.len) 0).length := by rw [starts_length]; simpa using hb
     obtain ⟨hk, he⟩ := flatten_getElem_offset xss i hi j hj
@@ -370,6 +371,7 @@ example : ((forgeBP exampleBP).toOption.bind Forged.flat?).map
     some (65, some (23/24), some 0, some 0, some 1) := by
   decide +kernel
 
+/-- helper for `nonempty_two_per_segment`: counts of at least two add up to at least `2·len` -/
 theorem two_per_count (sr : ℚ) (durs : List ℚ) (h2 : ∀ d ∈ durs, 2 ≤ rhe (d * sr)) :
     2 * durs.length ≤ sumN (durs.map (fun d => (rhe (d * sr)).toNat)) := by
   induction durs with
